@@ -740,12 +740,8 @@ def finish_no_model(prop, ev, problems, audit):
 
 
 def write_cargo():
-    path = os.path.join(vlib.ROOT, "harness", "t", "Cargo.toml")
-    s = open(path).read()
-    import re
-    s2 = re.sub(r'stakker = \{ path = "[^"]*"', 'stakker = { path = "%s"' % vlib.REPO, s)
-    if s2 != s:
-        open(path, "w").write(s2)
+    """harness/t/Cargo.toml names /repo; scratch-repo runs get a private copy of the crate from vlib.harness_build."""
+    return
 
 
 def replay(prop, path):
